@@ -337,6 +337,17 @@ func c06otherKinds() []c06kind {
 			if !ok {
 				return nil, nil, errC06Type
 			}
+			// same for a WritePacket whose body is decoded into a reused struct
+			var raw sshfx.RawPacket
+			if err := raw.UnmarshalBinary(frame[4:]); err != nil {
+				return nil, nil, err
+			}
+			if err := c06reusedWrite.UnmarshalPacketBody(&raw.Data); err != nil {
+				return nil, nil, fmt.Errorf("decoding into a reused WritePacket: %w", err)
+			}
+			if string(c06reusedWrite.Data) != string(p.Data) || c06reusedWrite.Handle != p.Handle || c06reusedWrite.Offset != p.Offset {
+				return nil, nil, fmt.Errorf("decoding into a reused WritePacket gives %d payload bytes %q, into a fresh one %d bytes", len(c06reusedWrite.Data), c06clip(c06reusedWrite.Data), len(p.Data))
+			}
 			return &c06lp{kind: "WRITE", typ: 6, id: rp.RequestID, f: []c06field{c06s(p.Handle), c06q(p.Offset), c06d(string(p.Data))}}, re, nil
 		}})
 
@@ -419,6 +430,14 @@ func c06otherKinds() []c06kind {
 			id, re, err := c06fxResp(frame, sshfx.PacketTypeData, &p)
 			if err != nil {
 				return nil, nil, err
+			}
+			// the same frame decoded into a packet that is reused from case to case (its Data slice is
+			// the decoder's copy hint) must give the same payload as decoding into a fresh packet
+			if _, _, err := c06fxResp(frame, sshfx.PacketTypeData, &c06reusedData); err != nil {
+				return nil, nil, fmt.Errorf("decoding into a reused DataPacket: %w", err)
+			}
+			if string(c06reusedData.Data) != string(p.Data) {
+				return nil, nil, fmt.Errorf("decoding into a reused DataPacket gives %d payload bytes %q, into a fresh one %d bytes", len(c06reusedData.Data), c06clip(c06reusedData.Data), len(p.Data))
 			}
 			return &c06lp{kind: "DATA", typ: 103, id: id, f: []c06field{c06d(string(p.Data))}}, re, nil
 		}})
@@ -566,4 +585,17 @@ func c06attrsInfo(form byte, a *c06attrs) os.FileInfo {
 		panic(fmt.Sprintf("c06attrsInfo: form %c cannot carry %v (gives %v)", form, *a, back))
 	}
 	return fi
+}
+
+// packets reused across cases (per worker process; the enumeration is sequential)
+var (
+	c06reusedData  sshfx.DataPacket
+	c06reusedWrite sshfx.WritePacket
+)
+
+func c06clip(b []byte) []byte {
+	if len(b) > 24 {
+		return b[:24]
+	}
+	return b
 }
